@@ -563,7 +563,7 @@ fn job_workload(master: u64, job: u64, tier: Tier) -> Vec<u8> {
         let mut file = Vec::new();
         let n = rng.range(1, 2);
         for _ in 0..n {
-            let target = rng.range(sc.min_plain as u64, sc.max_plain.min(30000) as u64) as usize;
+            let target = rng.range(sc.min_plain.min(30000) as u64, sc.max_plain.min(30000) as u64) as usize;
             let plain = workload::gen_plaintext(&mut rng, target);
             let c = workload::Compressor::random(&mut rng);
             let raw = c.compress(&plain);
